@@ -1,5 +1,7 @@
 import Emerge.Cli
 import Emerge.Gen.FsOps
+import Emerge.Gen.CliFlags
+import Emerge.Proofs.CliArgs
 /-
   C16 — success iff the package was fully written; flags honoured; existing files untouched.
 
@@ -310,7 +312,65 @@ theorem C16_extra_arguments_rejected (fl : Flags) (fs : FS) (input : InputState)
   · simp
   · split
     · simp
-    · simp [hx]
+    · simp
+
+/-! ### From the command line as typed to the flags: `flag.FlagSet.Parse` over the regenerated flag table -/
+
+open Emerge.CliArgs in
+/-- **The command line of a successful run**: the arguments are flags the set knows, consumed completely, followed by
+    exactly one more argument, the input file; the package went to the value of the last `-out` among them (the working
+    directory if there is none) under the last `-name` (the grammar's name if there is none or it is empty). -/
+theorem C16_cmdline_success (argv : List String) (cwd : String) (fs : FS) (input : InputState) (sr : SpecResult)
+    (idValid : String → Bool) (render : String → String) (faults : List Fault)
+    (h : (run (toFlags Gen.CliFlags.flags cwd argv) fs input sr idValid render faults).success = true) :
+    ∃ pre file sets, argv = pre ++ [file] ∧ file.startsWith "-" = false ∧
+      parse Gen.CliFlags.flags argv [] = .ok sets [file] ∧
+      ∀ f ∈ allFiles, (run (toFlags Gen.CliFlags.flags cwd argv) fs input sr idValid render faults).fs.get
+        ((sets.lookup "out").getD cwd ++ "/" ++ (if (sets.lookup "name").getD "" ≠ "" then (sets.lookup "name").getD "" else sr.grammarName)
+          ++ "/" ++ f) = some (.file (render f)) := by
+  obtain ⟨file, hargs, hdash⟩ := C16_no_ignored_arguments _ fs input sr idValid render faults h
+  have hs := C16_success _ fs input sr idValid render faults h
+  generalize hfl : toFlags Gen.CliFlags.flags cwd argv = fl at h hargs hs
+  unfold toFlags at hfl
+  cases hp : parse Gen.CliFlags.flags argv [] with
+  | bad => simp only [hp] at hfl; subst hfl; simp [run] at h
+  | help => simp only [hp] at hfl; subst hfl; simp [run] at h
+  | ok sets rest =>
+    simp only [hp] at hfl
+    subst hfl
+    simp only at hargs
+    subst hargs
+    obtain ⟨pre, hpre⟩ := parse_suffix _ _ _ _ _ hp
+    refine ⟨pre, file, sets, hpre, hdash, rfl, ?_⟩
+    have := hs.2.2.2.2.2.2.2
+    simpa [chosenName] using this
+
+open Emerge.CliArgs in
+/-- **Flags behind the input file are never read as flags**: when the arguments `pre` are flags consumed completely and
+    `file` is not one, whatever follows the file - a `-out`, a `-name`, another file - changes none of the settings and is
+    handed to `Run` as it stands, which refuses it (`C16_extra_arguments_rejected`): nothing is created. -/
+theorem C16_cmdline_trailing (pre : List String) (file x : String) (post : List String) (cwd : String)
+    (sets : List (String × String)) (fs : FS) (input : InputState) (sr : SpecResult)
+    (idValid : String → Bool) (render : String → String) (faults : List Fault)
+    (hpre : parse Gen.CliFlags.flags pre [] = .ok sets []) (hfile : classify file = .positional)
+    (hdash : file.startsWith "-" = false)
+    (hinfo : isSet sets "help" = false ∧ isSet sets "version" = false) :
+    (run (toFlags Gen.CliFlags.flags cwd (pre ++ file :: x :: post)) fs input sr idValid render faults).fs = fs ∧
+    (run (toFlags Gen.CliFlags.flags cwd (pre ++ file :: x :: post)) fs input sr idValid render faults).exit = 1 := by
+  have hp := parse_stops_at_positional Gen.CliFlags.flags pre [] sets file (x :: post) hfile hpre
+  unfold toFlags
+  simp only [hp]
+  simp [run, hinfo.1, hinfo.2, Flags.file, hdash]
+
+/-- **The tie to the source**: the flags are those of `command.Command`'s struct tags, and `main` creates the set with
+    `ContinueOnError`, registers them, parses `os.Args[1:]`, maps `flag.ErrHelp` to status 0 and any other parse error to
+    2, and hands `fs.Args()` to `Run` - re-extracted on every run. -/
+theorem C16_flag_table : Gen.CliFlags.flags =
+    [("help", .bool), ("version", .bool), ("verbose", .bool), ("out", .str), ("name", .str), ("debug", .bool)] ∧
+    Gen.CliFlags.mainCalls =
+    ["flag.NewFlagSet(\"emerge\",flag.ContinueOnError)", "os.Exit(1)", "flagit.Register(fs,cmd,false)", "os.Exit(1)",
+     "fs.Parse(os.Args[1:])", "errors.Is(err,flag.ErrHelp)", "os.Exit(0)", "os.Exit(2)", "os.Exit(1)", "cmd.Run(fs.Args())",
+     "os.Exit(1)", "os.Exit(0)"] := ⟨rfl, rfl⟩
 
 /-- **The tie to the source**: the calls that can change the file system in the tool's non-test code,
     re-extracted from /repo on every run, are exactly the two the model issues — `os.Mkdir` in `prepare`
@@ -329,5 +389,13 @@ example : (run demoFlags demoFS .readable demoSpec (fun _ => true) (fun f => "//
 example : (run demoFlags demoFS .readable demoSpec (fun _ => true) (fun f => "// " ++ f) [.none, .none, .half]).exit = 1 := by decide +kernel
 /-- `emerge g.ebnf -out /elsewhere`: rejected, nothing written -/
 example : (run { demoFlags with args := ["g.ebnf", "-out", "/elsewhere"] } demoFS .readable demoSpec (fun _ => true) (fun f => "// " ++ f) []).exit = 1 := by decide +kernel
+
+/-- the documented way to call the tool, and the way that used to be ignored in silence -/
+example : CliArgs.toFlags Gen.CliFlags.flags "/cwd" ["-out", "/o", "--name=p", "-debug", "g.ebnf"] =
+    { out := "/o", name := "p", args := ["g.ebnf"] } := by decide +kernel
+example : (run (CliArgs.toFlags Gen.CliFlags.flags "/o" ["g.ebnf", "-name", "p"]) demoFS .readable demoSpec (fun _ => true) (fun f => "// " ++ f) []).exit = 1 := by
+  decide +kernel
+example : (run (CliArgs.toFlags Gen.CliFlags.flags "/o" ["-name", "p", "g.ebnf"]) demoFS .readable demoSpec (fun _ => true) (fun f => "// " ++ f) []).fs.get "/o/p/lexer.go"
+    = some (.file "// lexer.go") := by decide +kernel
 
 end Emerge.Props.C16
